@@ -239,7 +239,7 @@ static void c20_run(int tier, long cfg)
     case 1: run_a(tier ? 3 : 2); break;
     case 2: run_c(); break;
     case 3: run_b(2, 1, 1); break;
-    case 4: run_b(3, 2, 0); break;
+    case 4: run_b(3, 1, 0); break;
     case 5: run_b(2, 1, 0); break;
   }
 }
